@@ -1,5 +1,150 @@
 import Driver.Common
-open Driver
+import GIV.Model.Fsx
+open GIV GIV.Txtar GIV.Fsx Driver
 
-/-- stub: replaced by the group's model driver. -/
-def main : IO Unit := run (fun _ => "bad-op")
+/-! Line protocol of the fsx group (property C15).
+
+  clean <hex path>                              -> <hex of cleanPath>
+  write <hex dir> <fs> <archive>                -> err=<e> fs=<fs>
+  x     <hex dir> <fs> <hex archive text>       -> panic | err=<e> fs=<fs>          (txtar-x)
+  save  <a><q> <tree>                           -> panic | A=<archive> F=<hex text>  (txtar-c; a,q ∈ {0,1})
+
+  <fs>      = `-` | entries joined by `,`:  d.<hex abs path> | f.<hex abs path>.<hex data>
+  <archive> = c:<hex>;f:<hex name>:<hex data>;…            (as in the txtar driver)
+  <tree>    = `-` | tokens joined by `,`:  D.<hex name> … E | F.<hex name>.<hex data> | O.<hex name>
+-/
+
+def showErr : Option Err → String
+  | none => "nil"
+  | some .outside => "outside"
+  | some .notDir => "notdir"
+  | some .exists => "exists"
+  | some .noEnt => "noent"
+  | some .isDir => "isdir"
+
+/-- absolute path string -> normalised component list. -/
+def keyOf (s : Bytes) : Path := (cleanComps true [] (splitSep s)).reverse
+
+def pathStr (p : Path) : Bytes := SEP :: joinSep p
+
+def dedupKeys : List Path → List Path → List Path
+  | [], acc => acc.reverse
+  | k :: rest, acc => if acc.contains k then dedupKeys rest acc else dedupKeys rest (k :: acc)
+
+def showFS (fs : FS) : String :=
+  let keys := dedupKeys (fs.map (·.1)) []
+  let items := keys.filterMap fun k =>
+    if k = [] then none else
+    match fs.get k with
+    | some .dir => some ("d." ++ toHex (pathStr k))
+    | some (.file d) => some ("f." ++ toHex (pathStr k) ++ "." ++ toHex d)
+    | none => none
+  if items.isEmpty then "-" else ",".intercalate items
+
+def parseFSEntry (s : String) : Option (Path × Node) :=
+  match s.splitOn "." with
+  | ["d", p] => do
+    let p ← fromHex p
+    pure (keyOf p, .dir)
+  | ["f", p, d] => do
+    let p ← fromHex p
+    let d ← fromHex d
+    pure (keyOf p, .file d)
+  | _ => none
+
+def parseFS (s : String) : Option FS :=
+  if s == "-" then some [] else (s.splitOn ",").mapM parseFSEntry
+
+def showArchive (a : Archive) : String :=
+  "c:" ++ toHex a.comment ++ String.join (a.files.map fun f => ";f:" ++ toHex f.name ++ ":" ++ toHex f.data)
+
+def parseFileEnc (s : String) : Option File :=
+  match s.splitOn ":" with
+  | ["f", n, d] => do
+    let n ← fromHex n
+    let d ← fromHex d
+    pure ⟨n, d⟩
+  | _ => none
+
+def parseArchiveEnc (s : String) : Option Archive :=
+  match s.splitOn ";" with
+  | c :: fs =>
+    match c.splitOn ":" with
+    | ["c", ch] => do
+      let cb ← fromHex ch
+      let files ← fs.mapM parseFileEnc
+      pure ⟨cb, files⟩
+    | _ => none
+  | [] => none
+
+/-! tree tokens -> Forest, with an explicit stack of open directories -/
+
+def mkForest (revChildren : List (Bytes × Tree)) : Forest :=
+  revChildren.foldl (fun acc nt => Forest.cons nt.1 nt.2 acc) Forest.nil
+
+abbrev Frame := Bytes × List (Bytes × Tree)
+
+def addChild (n : Bytes) (t : Tree) : List Frame → Option (List Frame)
+  | (dn, ch) :: rest => some ((dn, (n, t) :: ch) :: rest)
+  | [] => none
+
+def treeTok (st : Option (List Frame)) (tok : String) : Option (List Frame) := do
+  let st ← st
+  match tok.splitOn "." with
+  | ["D", n] => do
+    let n ← fromHex n
+    pure ((n, []) :: st)
+  | ["E"] =>
+    match st with
+    | (dn, ch) :: rest => addChild dn (Tree.dir (mkForest ch)) rest
+    | [] => none
+  | ["F", n, d] => do
+    let n ← fromHex n
+    let d ← fromHex d
+    addChild n (Tree.file d) st
+  | ["O", n] => do
+    let n ← fromHex n
+    addChild n Tree.other st
+  | _ => none
+
+def parseTree (s : String) : Option Forest :=
+  if s == "-" then some Forest.nil else
+  match (s.splitOn ",").foldl treeTok (some [([], [])]) with
+  | some [(_, ch)] => some (mkForest ch)
+  | _ => none
+
+def parseOpts (s : String) : Option SaveOpts :=
+  match s.toList with
+  | [a, q] =>
+    if (a == '0' || a == '1') && (q == '0' || q == '1') then some ⟨a == '1', q == '1'⟩ else none
+  | _ => none
+
+def showW (r : Option Err × FS) : String := "err=" ++ showErr r.1 ++ " fs=" ++ showFS r.2
+
+def step (line : String) : String :=
+  match line.splitOn " " with
+  | ["clean", h] =>
+    match fromHex h with
+    | some p => toHex (cleanPath p)
+    | none => "bad-op"
+  | ["write", dh, fsE, aE] =>
+    match fromHex dh, parseFS fsE, parseArchiveEnc aE with
+    | some d, some fs, some a => showW (writeArchive a (keyOf d) fs)
+    | _, _, _ => "bad-op"
+  | ["x", dh, fsE, th] =>
+    match fromHex dh, parseFS fsE, fromHex th with
+    | some d, some fs, some t =>
+      match extract t (keyOf d) fs with
+      | none => "panic"
+      | some r => showW r
+    | _, _, _ => "bad-op"
+  | ["save", o, tE] =>
+    match parseOpts o, parseTree tE with
+    | some o, some t =>
+      match saveDir o t with
+      | none => "panic"
+      | some a => "A=" ++ showArchive a ++ " F=" ++ toHex (format a)
+    | _, _ => "bad-op"
+  | _ => "bad-op"
+
+def main : IO Unit := run step
